@@ -8,9 +8,9 @@ import (
 
 // Specs lists the checks this world binary serves.
 func Specs() []kernel.Spec {
-	return []kernel.Spec{
+	return lockSpecs([]kernel.Spec{
 		{Prop: "C19", Mk: New, Limits: kernel.Limits{MaxSteps: 400, SettleSteps: 200}},
-	}
+	})
 }
 
 func TestSim(t *testing.T) { kernel.Main(t, "witness", Specs()) }
